@@ -1,0 +1,22 @@
+//go:build verif
+
+// Contracts for package durable, checked by /verif's govc (comment-only file).
+package durable
+
+//@ func durable.WriteFile props C13
+//@   init gOps == 0 && gRenameAt == 0 && gRemoved == emptyset("set[string]") && gLastTemp == nil
+//@   init forall r Ref :: gSyncAt[r] == 0 && gCloseAt[r] == 0 && gWriteAt[r] == 0
+//@   call os.Rename requires [C13] data-written-synced-closed-first: gWritten[f] == data && gWriteAt[f] > 0 && gSyncAt[f] > gWriteAt[f] && gCloseAt[f] > gSyncAt[f]
+//@   call os.Rename requires [C13] publishes-temp-as-name: c_oldpath == fileNameOf(f) && c_newpath == name && dirOf(fileNameOf(f)) == dirOf(name)
+//@   call os.Rename requires [C13] parent-still-open-unsynced: gCloseAt[parent] == 0
+//@   returns [C13] directory-entry-durable: ret == nil ==> gRenameAt > 0 && gRenameTo == name && gSyncAt[parent] > gRenameAt && gOpenPath[parent] == dirOf(name)
+//@   returns [C13] failure-removes-temp: (ret != nil && gRenameAt == 0 && gLastTemp != nil) ==> gRemoved[fileNameOf(gLastTemp)]
+//@   call os.(*File).Write requires [C13] writes-only-temp: c_recv == f && c_b == data
+
+//@ func durable.Mkdir props C13
+//@   init gOps == 0 && gMkdirAt == 0
+//@   init forall r Ref :: gSyncAt[r] == 0 && gCloseAt[r] == 0
+//@   returns [C13] new-dir-then-parent-synced: ret == nil ==> gMkdirAt > 0 && gMkdirPath == path && gSyncAt[f] > gMkdirAt && gSyncAt[parent] > gSyncAt[f] && gOpenPath[f] == path && gOpenPath[parent] == dirOf(path)
+
+//@ func durable.MkdirAll props C13
+//@   call durable.Mkdir requires [C13] parents-first: true
